@@ -120,6 +120,17 @@ CHECKS = {
         note='Finite-choice throughout (leverage about 1): the solver contributes the unbounded pattern-equivalence '
              'lemmas, the histories are enumerated. Trusted: z3, rx/translate.py, the three-line content model.',
         design='3 C14'),
+    'C18': dict(
+        text='Bounded symbolic model checking of value normalisation on the real code: every decimal literal up to '
+             'the digit bound (each digit a solver variable; sign, presence of integer/fraction part and unit by '
+             'solver-driven choice) through tokenizer, DimensionValue and the serializer with omitLeadingZero '
+             'symbolic - the typed accessors and the serialised text, read back by an independent decimal reader, '
+             'are proved to denote exactly the same rational, unit and sign without redundant zeros; all 22^6 / 22^3 '
+             'spellings of hash colours (channels, lossless shortening, minimizeColorHash symbolic); rgb()/rgba() '
+             'with symbolic integers and percentages; component order and separators.',
+        note="Trusted: z3 (linear integer arithmetic); the exact-decimal model of float()/'%f' (sx/symnum.py, valid "
+             'up to 15 significant / 6 fractional digits); hsl()/hsla() and colour keywords are outside.',
+        design='3 C18'),
 }
 
 NA_REASON = 'check not built yet (build in progress; DESIGN.md section 3 describes the planned harness)'
